@@ -284,6 +284,14 @@ def field_order(ctx, t, eb, db):
                     sites = read_sites(dv, op.place.local)
                     tmp.append((min([pos.get(x, 10 ** 6) for x in sites] or [10 ** 6]), fname))
                 dorder = [f for _, f in sorted(tmp)]
+    if "SerBoltTlvOptions" in (eb.mac or "") and "SerBoltTlvOptions" in (db.mac or ""):
+        # TLV record (derive SerBoltTlvOptions): the wire order is ascending tag, the reader dispatches on the tag;
+        # both tables are generated from the same #[tlv_tag] attribute.  Decided here: every declared field is
+        # written and is read back (no field silently dropped on either side).
+        ctx.ob("R19.3", sorted(eorder) == sorted(decl) and sorted(dorder) == sorted(decl), f"type/{short(t)}/tlv-fields",
+               f"{t} (TLV): declared fields {decl}; written {eorder}; read {dorder}", where=f"{eb.file}:{eb.line}",
+               sample={"tlv_fields": decl})
+        return
     ctx.ob("R19.3", eorder == decl and dorder == decl, f"type/{short(t)}/field-order",
            f"{t}: declared fields {decl}; consensus_encode writes {eorder}; consensus_decode reads {dorder}",
            where=f"{eb.file}:{eb.line}", sample={"fields": decl})
